@@ -148,7 +148,8 @@ func (store *Store) Write(database int, command []byte) error {
 	// log the SELECT command before logging the incoming command.
 	// This allows us to switch databases appropriately when restoring the state on startup.
 	if database != store.currentDatabase {
-		_, err := store.rw.Write([]byte(fmt.Sprintf("*2\r\n$6\r\nSELECT\r\n$1\r\n%s\r\n", strconv.Itoa(database))))
+		index := strconv.Itoa(database)
+		_, err := store.rw.Write([]byte(fmt.Sprintf("*2\r\n$6\r\nSELECT\r\n$%d\r\n%s\r\n", len(index), index)))
 		if err != nil {
 			return fmt.Errorf("log select error: %+v", err)
 		}
@@ -237,8 +238,9 @@ func (store *Store) Truncate() error {
 	}
 
 	// Add command to select the current database at the top of the file.
+	index := strconv.Itoa(store.currentDatabase)
 	_, err := store.rw.Write([]byte(
-		fmt.Sprintf("*2\r\n$6\r\nSELECT\r\n$1\r\n%s\r\n", strconv.Itoa(store.currentDatabase))))
+		fmt.Sprintf("*2\r\n$6\r\nSELECT\r\n$%d\r\n%s\r\n", len(index), index)))
 	if err != nil {
 		return fmt.Errorf("truncate: log select error: %+v", err)
 	}
